@@ -1783,6 +1783,10 @@ class UnitQuaternion(Quaternion):
             # a sequence of s values gives the corresponding sequence of quaternions
             return UnitQuaternion([self.interp(x, dest=dest, shortest=shortest).A for x in base.getvector(s)])
 
+        if len(self) > 1:
+            # one interpolated quaternion per value held
+            return UnitQuaternion([q.interp(s, dest=dest, shortest=shortest).A for q in self])
+
         if dest is not None:
             # 2 quaternion form
             assert isinstance(dest, UnitQuaternion)
